@@ -13,7 +13,7 @@ import random, json
 import vlib, pp, ppcheck, svgen, corpus, gen, tree
 import c10
 
-ALPHA = ["`", "\"", "\\", "/*", "*/", "//", "(", ")", "[", "]", "{", "}", "begin", "end", "module", "endmodule", "`define", "`ifdef", "`endif", "`include", "`\"", "``",
+ALPHA = ["// é", "/* ü */", "// c", "`", "\"", "\\", "/*", "*/", "//", "(", ")", "[", "]", "{", "}", "begin", "end", "module", "endmodule", "`define", "`ifdef", "`endif", "`include", "`\"", "``",
          "'", "'b", "1'", "#", "@", ";", ",", ".", "::", "$", "\x00", "\x7f", "é", "\r", "\f", "`begin_keywords", "`__LINE__", "`resetall", "`line", "`pragma", "`timescale"]
 
 
@@ -23,8 +23,9 @@ def fault_variants(text, rng, limit):
     if not toks:
         return [text]
     n = len(toks)
-    for i in range(n):                                   # truncate at every token boundary
+    for i in range(n):                                   # truncate at every token boundary: before and right behind each token
         out.append(text[:toks[i][0]])
+        out.append(text[:toks[i][0] + len(toks[i][1])])
     for _ in range(limit):
         i = rng.randrange(n)
         o, t, c = toks[i]
@@ -57,6 +58,9 @@ def run(tier, seed):
     for i in range(20 if quick else 200):
         u = gen.U()
         bases.append(pp.render_file(gen.finish_file(gen.mixed_program(rng, u))))
+    import treecheck
+    # layout variants with non-ASCII comments, CRLF and directives at line starts (what cuts and slices can trip over)
+    bases += [treecheck.decorate(b, rng, heavy=True) for b in bases[:: 2]]
     texts = []
     for b in bases:
         vs = fault_variants(b, rng, 10 if quick else 40)
@@ -81,7 +85,7 @@ def run(tier, seed):
         elif k == 2:
             calls = [{"fn": "parse_lib_str", "path": "t.sv", "text": t, "fmt": True}]
         elif k == 3:
-            calls = [{"fn": "preprocess_str", "path": "t.sv", "text": t, "strip_comments": True}]
+            calls = [{"fn": "preprocess_str", "path": "t.sv", "text": t, "strip_comments": True}, {"fn": "preprocess", "path": "t.sv", "strip_comments": True, "ignore_include": True}]
         elif k == 4:
             calls = [{"fn": "parse_sv", "path": "t.sv", "ignore_include": True, "fmt": True}, {"fn": "preprocess", "path": "t.sv"}]
         else:
